@@ -1,0 +1,49 @@
+//go:build verif
+
+package ion
+
+import "math/big"
+
+// This file re-exports internals for the /verif correspondence harness.
+// It is compiled only with -tags verif and adds no behaviour.
+
+func VerifUintLen(v uint64) uint64                  { return uintLen(v) }
+func VerifAppendUint(b []byte, v uint64) []byte     { return appendUint(b, v) }
+func VerifIntLen(v int64) uint64                    { return intLen(v) }
+func VerifAppendInt(b []byte, v int64) []byte       { return appendInt(b, v) }
+func VerifBigIntLen(v *big.Int) uint64              { return bigIntLen(v) }
+func VerifAppendBigInt(b []byte, v *big.Int) []byte { return appendBigInt(b, v) }
+func VerifVarUintLen(v uint64) uint64               { return varUintLen(v) }
+func VerifAppendVarUint(b []byte, v uint64) []byte  { return appendVarUint(b, v) }
+func VerifVarIntLen(v int64) uint64                 { return varIntLen(v) }
+func VerifAppendVarInt(b []byte, v int64) []byte    { return appendVarInt(b, v) }
+func VerifTagLen(l uint64) uint64                   { return tagLen(l) }
+func VerifAppendTag(b []byte, code byte, l uint64) []byte {
+	return appendTag(b, code, l)
+}
+
+// VerifReadVarUintLen runs bitstream.readVarUintLen(max) over bs and reports
+// the value, its length and the number of bytes consumed.
+func VerifReadVarUintLen(bs []byte, max uint64) (uint64, uint64, uint64, error) {
+	b := bitstream{}
+	b.InitBytes(bs)
+	v, l, err := b.readVarUintLen(max)
+	return v, l, b.pos, err
+}
+
+// VerifReadVarIntLen runs bitstream.readVarIntLen(max) over bs.
+func VerifReadVarIntLen(bs []byte, max uint64) (int64, int64, uint64, uint64, error) {
+	b := bitstream{}
+	b.InitBytes(bs)
+	v, s, l, err := b.readVarIntLen(max)
+	return v, s, l, b.pos, err
+}
+
+// VerifReadBigInt runs bitstream.readBigInt over exactly bs.
+func VerifReadBigInt(bs []byte) (*big.Int, error) {
+	b := bitstream{}
+	b.InitBytes(bs)
+	ret := new(big.Int)
+	err := b.readBigInt(uint64(len(bs)), ret)
+	return ret, err
+}
